@@ -10,6 +10,7 @@
   the follower.
 -/
 import Sky.Ledger.Create
+import Sky.Ledger.Sorted
 namespace Sky.Props.C05
 open Sky Sky.Ledger
 
@@ -82,5 +83,68 @@ theorem created_txns_balanced {s : State} {txns r : List Txn} {when_ fee : Nat}
   obtain ⟨_, _, hv, _⟩ := created_block_facts h
   obtain ⟨uxIn, h1, _, h3, _⟩ := verifyBlockTxn_ok (hv t ht).2.2
   exact ⟨uxIn, h1, h3⟩
+
+/-- the publisher (arbitrating mode) lists transactions by fee per kilobyte, highest first, ties by
+lowest hash: the block's transaction list is a sub-sequence of a list ordered by that key, and the keys
+are the real fees per kB against the current head (saturating `fee*1024`, divided by the encoded size) -/
+theorem created_sorted {s : State} {txns r : List Txn} {when_ fee : Nat} (harb : s.cfg.arb = true)
+    (h : createBlock s txns when_ = .ok (r, fee)) :
+    ∃ ks : List Keyed, r.Sublist (ks.map (·.txn)) ∧ ks.Pairwise kle ∧
+      ∀ k ∈ ks, ∃ f sz, txnFee s k.txn = .ok f ∧ k.txn.size = some sz ∧ k.fee = feeKB f sz := by
+  unfold createBlock at h
+  simp only [bind, Except.bind] at h
+  split at h
+  · cases h
+  · split at h
+    · cases h
+    · split at h
+      · cases h
+      · split at h
+        · cases h
+        · split at h
+          · cases h
+          · split at h
+            · cases h
+            · rename_i txns2 hpt
+              split at h
+              · cases h
+              · split at h
+                · cases h
+                · split at h
+                  · cases h
+                    exact processTransactions_arb_sorted harb hpt
+                  · cases h
+
+/-- two transactions of a created block never spend the same output, whatever the pool contained -/
+theorem created_no_conflict {s : State} {txns r : List Txn} {when_ fee : Nat}
+    (h : createBlock s txns when_ = .ok (r, fee)) : r.Pairwise (fun a b => sharesInput a b = false) := by
+  unfold createBlock at h
+  simp only [bind, Except.bind] at h
+  split at h
+  · cases h
+  · split at h
+    · cases h
+    · split at h
+      · cases h
+      · split at h
+        · cases h
+        · split at h
+          · cases h
+          · split at h
+            · cases h
+            · rename_i txns2 hpt
+              split at h
+              · cases h
+              · split at h
+                · cases h
+                · split at h
+                  · cases h
+                    exact (processTransactions_facts hpt).2.1
+                  · cases h
+
+/- FULL conflict clause of the property ("exactly one of two conflicting pending transactions is included,
+the earlier one") is FALSE of code and model in conflict chains X < A < B (X∩A ≠ ∅, A∩B ≠ ∅, X∩B = ∅):
+the block is [X], neither A nor B — known finding F36; the check evaluates the clause on every block the
+real publisher makes and reports any other violation of it. -/
 
 end Sky.Props.C05
